@@ -1177,4 +1177,94 @@ theorem evalCosts_kept (ctx : Ctx) (doc L : Nat) : ∀ (n cost : Nat) (t : MT) (
       · exact step _
     | found => exact step _
 
+
+mutual
+theorem MT.prune_noSub : (t : MT) → t.NoSub → ∀ t', t.prune = some t' → t'.NoSub ∧ (Cur0 0 t → Cur0 0 t')
+  | .doc _ _ _ _, h, t', e => by simp only [MT.prune, Option.some.injEq] at e; subst e; exact ⟨h, fun hc => hc⟩
+  | .brute _ _, h, t', e => by simp only [MT.prune, Option.some.injEq] at e; subst e; exact ⟨h, fun hc => hc⟩
+  | .none, h, t', e => by simp only [MT.prune, Option.some.injEq] at e; subst e; exact ⟨h, fun hc => hc⟩
+  | .re _ _ _ _ _ _ _, h, t', e => by simp only [MT.prune, Option.some.injEq] at e; subst e; exact ⟨h, fun hc => hc⟩
+  | .sub _, h, _, _ => absurd h (by simp [MT.NoSub])
+  | .andLine _ _ _, h, _, _ => absurd h (by simp [MT.NoSub])
+  | .and k ch, h, t', e => by
+    simp only [MT.prune] at e
+    cases hp : MTs.pruneAnd ch with
+    | none => simp [hp] at e
+    | some ch' =>
+      simp only [hp, Option.map, Option.some.injEq] at e; subst e
+      exact MTs.pruneAnd_noSub ch h ch' hp
+  | .or k ch, h, t', e => by
+    simp only [MT.prune] at e
+    have r := MTs.pruneOr_noSub ch h
+    generalize MTs.pruneOr ch = p at r e
+    match p with
+    | .nil => simp at e
+    | .cons x .nil => simp only [Option.some.injEq] at e; subst e; exact ⟨r.1.1, fun hc => (r.2 hc).1⟩
+    | .cons x (.cons y z) => simp only [Option.some.injEq] at e; subst e; exact r
+  | .not k c, h, t', e => by
+    simp only [MT.prune] at e
+    cases hp : c.prune with
+    | none => simp only [hp, Option.some.injEq] at e; subst e; exact ⟨trivial, fun _ => by simp [MT.Cur]⟩
+    | some c' =>
+      simp only [hp, Option.some.injEq] at e; subst e
+      exact ⟨(MT.prune_noSub c h c' hp).1, fun _ => trivial⟩
+  | .fileName k c, h, t', e => by
+    simp only [MT.prune] at e
+    cases hp : c.prune with
+    | none => simp [hp] at e
+    | some c' => simp only [hp, Option.map, Option.some.injEq] at e; subst e; exact MT.prune_noSub c h c' hp
+  | .boost k c, h, t', e => by
+    simp only [MT.prune] at e
+    cases hp : c.prune with
+    | none => simp [hp] at e
+    | some c' => simp only [hp, Option.map, Option.some.injEq] at e; subst e; exact MT.prune_noSub c h c' hp
+  | .noVisit c, h, t', e => by
+    simp only [MT.prune] at e
+    cases hp : c.prune with
+    | none => simp [hp] at e
+    | some c' => simp only [hp, Option.map, Option.some.injEq] at e; subst e; exact MT.prune_noSub c h c' hp
+theorem MTs.pruneAnd_noSub : (ch : MTs) → MTs.NoSubAll ch → ∀ ch', MTs.pruneAnd ch = some ch' →
+    MTs.NoSubAll ch' ∧ (CurAll0 0 ch → CurAll0 0 ch')
+  | .nil, _, ch', e => by simp only [MTs.pruneAnd, Option.some.injEq] at e; subst e; exact ⟨trivial, fun _ => trivial⟩
+  | .cons h t, hh, ch', e => by
+    simp only [MTs.pruneAnd] at e
+    cases hp : h.prune with
+    | none => simp [hp] at e
+    | some h' =>
+      cases hq : MTs.pruneAnd t with
+      | none => simp [hp, hq] at e
+      | some t' =>
+        simp only [hp, hq, Option.map, Option.some.injEq] at e; subst e
+        have r1 := MT.prune_noSub h hh.1 h' hp
+        have r2 := MTs.pruneAnd_noSub t hh.2 t' hq
+        exact ⟨⟨r1.1, r2.1⟩, fun hc => ⟨r1.2 hc.1, r2.2 hc.2⟩⟩
+theorem MTs.pruneOr_noSub : (ch : MTs) → MTs.NoSubAll ch →
+    MTs.NoSubAll (MTs.pruneOr ch) ∧ (CurAll0 0 ch → CurAll0 0 (MTs.pruneOr ch))
+  | .nil, _ => ⟨trivial, fun _ => trivial⟩
+  | .cons h t, hh => by
+    simp only [MTs.pruneOr]
+    have r2 := MTs.pruneOr_noSub t hh.2
+    cases hp : h.prune with
+    | none => exact ⟨r2.1, fun hc => r2.2 hc.2⟩
+    | some h' =>
+      have r1 := MT.prune_noSub h hh.1 h' hp
+      exact ⟨⟨r1.1, r2.1⟩, fun hc => ⟨r1.2 hc.1, r2.2 hc.2⟩⟩
+end
+
+/-- the loop hypotheses hold for sub-free trees -/
+theorem loopHyp_noSub (ctx : Ctx) (t0 : MT) :
+    LoopHyp ctx (fun d => sem0 d t0) (fun L t => t.NoSub ∧ Cur0 L t ∧ ∀ d, sem0 d t = sem0 d t0) where
+  next := by
+    intro L t ⟨h1, h2, h3⟩
+    refine ⟨fun d hL hd => ?_, ?_⟩
+    · have := MT.nextDoc_sound (fun _ _ => false) (fun _ _ => true) L t h2 d hL hd
+      rw [← h3 d]; exact this
+    · rw [MT.nextDoc_noSub t h1]; exact ⟨h1, h2, h3⟩
+  prep := by
+    intro L t nd ⟨h1, _, h3⟩ _ _
+    obtain ⟨p1, p2, p3, p4⟩ := MT.prepare_noSub ctx nd t h1
+    refine ⟨by rw [p4, h3 nd], ?_⟩
+    have k := evalCosts_kept ctx nd (nd + 1) 4 0 (t.prepare nd) [] p1
+    exact ⟨k.noSub, k.cur p2, fun d => by rw [k.sem d, p3 d, h3 d]⟩
+
 end ZoektModel.C01
